@@ -13,6 +13,10 @@ CHECKS = {
          "directed hashes cover every single-bit pattern and every leading-zero length, random hashes the rest. Exploration, not proof: 2^160 hashes cannot be enumerated, "
          "but the code has no data-dependent branches beyond the bit packing that the directed cases cover.",
          "", "3 C01"),
+ "C03": ("hook-observed syndrome map of the implementation's own polyMod/bech32Polymod + meet-in-the-middle enumeration of all low-weight patterns on the measured map, confirmed through the real decoders; black-box exhaustive weight 1-2 and seeded weight<=5 substitution monitors; near-miss (partial-mask) patterns",
+         "The space of substitution patterns (about 1e14 per length) collapses through GF(2)-affinity of the remainder function, which the monitor validates at run time on the implementation itself, to a syndrome space that is enumerated completely (every pattern of weight <=5 on a 112-symbol window, which contains all eight standard lengths; bech32: weight <=4 on 88 symbols). "
+         "The acceptance comparison, which the hook does not see, is exercised black-box with exhaustive weight-1/2 substitutions, seeded heavier ones and patterns chosen to pass weakened comparisons.",
+         "Affinity of the remainder function is validated by sampling, not proven; every candidate the enumeration finds is re-decided by the real decoder before it is reported.", "3 C03"),
 }
 
 NOT_YET = "check not built yet in this revision (work in progress; will be claimed once its monitor is silent on the unchanged tree)"
